@@ -62,6 +62,8 @@ pub struct LifeSrc {
     sock_token: Option<Token>,
     sock_key: Rc<Cell<usize>>,
     synth_on_sock: bool,
+    /// forget the synthetic token at unregister (as calloop's own sources do with theirs)
+    clear_token: bool,
 }
 
 impl LifeSrc {
@@ -144,7 +146,9 @@ impl EventSource for LifeSrc {
     }
 
     fn unregister(&mut self, poll: &mut Poll) -> calloop::Result<()> {
-        self.synth_token = None;
+        if self.clear_token {
+            self.synth_token = None;
+        }
         if let Some(p) = &mut self.ping {
             p.unregister(poll)?;
         }
@@ -212,7 +216,7 @@ impl EventSource for LifeSrc {
 }
 
 #[allow(clippy::too_many_arguments)]
-pub fn insert_lifecycle(sim: &Sim, id: Id, with_ping: bool, synth: &[bool], script: &Script, two: bool, fail_step2: bool, keep_rejected: bool, sock: bool, synth_on_sock: bool) {
+pub fn insert_lifecycle(sim: &Sim, id: Id, with_ping: bool, synth: &[bool], script: &Script, two: bool, fail_step2: bool, keep_rejected: bool, sock: bool, synth_on_sock: bool, clear_token: bool) {
     let Some(h) = sim.st.borrow().handle.clone() else { return };
     if sim.st.borrow().srcs.contains_key(&id) {
         return;
@@ -269,7 +273,7 @@ pub fn insert_lifecycle(sim: &Sim, id: Id, with_ping: bool, synth: &[bool], scri
         sock_events: 0,
     });
     let src = crate::ops::new_src(id, script, k, sh.clone(), cbd);
-    let source = LifeSrc { id, ping: psrc, ping2: psrc2, fail_step2, synth_token: None, sock: sock_src, sock_token: None, sock_key, synth_on_sock };
+    let source = LifeSrc { id, ping: psrc, ping2: psrc2, fail_step2, synth_token: None, sock: sock_src, sock_token: None, sock_key, synth_on_sock, clear_token };
     let rejected: Rc<std::cell::RefCell<Option<Box<dyn std::any::Any>>>> = Rc::new(std::cell::RefCell::new(None));
     let rej = rejected.clone();
     let keep_rejected = keep_rejected && two;
@@ -277,7 +281,7 @@ pub fn insert_lifecycle(sim: &Sim, id: Id, with_ping: bool, synth: &[bool], scri
     let r = crate::ops::guarded(sim, "insert_source", || {
         h.insert_source(Wrap::new(source, sh), move |ev, _, tag: &mut Tag| {
             let _g = &guard;
-            on_life(id, ev, tag);
+            on_life(id, ev, tag, !clear_token);
         })
         .map_err(|e| {
             if keep_rejected {
@@ -299,9 +303,24 @@ pub fn insert_lifecycle(sim: &Sim, id: Id, with_ping: bool, synth: &[bool], scri
     }
 }
 
-pub fn on_life(id: Id, ev: LifeEv, tag: &mut Tag) {
+pub fn on_life(id: Id, ev: LifeEv, tag: &mut Tag, forgetful: bool) {
     let sim = cur();
     sim.trace(|| format!("   cb lifecycle {} {:?}", id, ev));
+    if forgetful {
+        // C07's "not even for events already collected in the current dispatch" is delivered by
+        // the sources forgetting their token in unregister() (the property names that mechanism);
+        // a source which keeps reacting to its old token gets the event collected before another
+        // callback of the same dispatch disabled it. Only that case is its own business: an
+        // event reaching it in a later dispatch is still judged.
+        let st = sim.st.borrow();
+        if let Some(s) = st.srcs.get(&id) {
+            if s.inserted && !s.enabled && s.excused && s.in_processing > 0 && !s.indeterminate {
+                drop(st);
+                sim.probe("forgetful_source_got_collected_event");
+                return;
+            }
+        }
+    }
     if !crate::cb::common(&sim, id, tag) {
         return;
     }
